@@ -32,7 +32,7 @@ func init() {
 		Real:       append(append([]string{}, realAll...), "db/fs (compiled against the simulated os)", "db/postgres", "asm (assembling the examples)"),
 		Stub:       append(append([]string{}, stubAll...), "OS filesystem (simfs)", "Postgres server (pgfake)"),
 		HangIsViolation: true, // the property promises that requests are served
-		FaultKinds: []string{"restart", "ext_error", "ext_oversize", "client_garbage", "client_browse_oob", "first_func_error"},
+		FaultKinds: []string{"restart", "ext_error", "ext_oversize", "client_garbage", "client_browse_oob", "first_func_error", "template_lookup_error"},
 	})
 }
 
@@ -176,6 +176,9 @@ func runC08(c *core.Ctx) *core.Outcome {
 		fresh := mode == 1 || (mode == 2 && t.Chance(1, 2))
 		if cfg.First && t.Chance(1, 8) {
 			s.FailFirstNext = true
+		}
+		if t.Chance(1, 14) {
+			s.FailTemplateThisRequest = true
 		}
 		t.End()
 		ff := s.FirstFailed
